@@ -1691,7 +1691,8 @@ class TokamakEquilibrium(Equilibrium):
     @Equilibrium.handleMultiLocationArray
     def fpolprime(self, psi):
         """psi-derivative of fpol"""
-        return self.fprime_spl(psi * self.f_psi_sign)
+        # fpol(psi) = f_spl(psi * f_psi_sign), so the chain rule gives a factor f_psi_sign
+        return self.f_psi_sign * self.fprime_spl(psi * self.f_psi_sign)
 
     @Equilibrium.handleMultiLocationArray
     def pressure(self, psi):
